@@ -4,6 +4,7 @@ import copy
 from vivarium.core.emitter import (
     RAMEmitter, timeseries_from_data, path_timeseries_from_data)
 from vivarium.library.topology import get_in
+from vivarium.library.units import units
 
 from vsym.core import AND, OR, NOT, EQ, is_sym
 
@@ -73,6 +74,13 @@ def body(ctx, cfg):
             raw[(t, p)] = v
             assoc(data[t], p, v)
     ctx.goal('falsy value possible')
+    # a variable with units next to the first path: magnitudes are concrete
+    # (pint), chosen by the solver-driven choice; its series is keyed
+    # (name, unit string) and must list every magnitude
+    qpath = paths[0][:-1] + ('len',)
+    qmags = [[1.0, 2.0, 3.0, 4.0], [0.0, 0.0, 5.0, 0.0]][ctx.choice('qm', 2)]
+    for i, t in enumerate(times):
+        assoc(data[t], qpath, qmags[i] * units.um)
 
     def same(a, b):
         if is_sym(a) or is_sym(b):
@@ -91,13 +99,19 @@ def body(ctx, cfg):
             cl.append(ok)
             if ok:
                 cl += [same(lst[i], raw[(t, p)]) for i, t in enumerate(times)]
+        qkey = qpath[:-1] + ((qpath[-1], 'micrometer'),)
+        qs = get_in(ts, qkey)
+        cl.append(isinstance(qs, list) and
+                  list(qs) == qmags[:len(times)])
         ctx.claim('C18.aligned', AND(cl), sig='aligned-' + name,
                   info=lambda: dict(data=data, timeseries=ts))
     # ---- path timeseries
     for name, pts in (('function', path_timeseries_from_data(
             copy.deepcopy(data))), ('accessor', emitter.get_path_timeseries())):
+        qkey = qpath[:-1] + ((qpath[-1], 'micrometer'),)
         cl = [pts.get('time') == times,
-              set(pts.keys()) == set(paths) | {'time'}]
+              set(pts.keys()) == set(paths) | {'time', qkey},
+              list(pts.get(qkey, [])) == qmags[:len(times)]]
         for p in paths:
             lst = pts.get(p)
             ok = isinstance(lst, list) and len(lst) == len(times)
